@@ -76,6 +76,7 @@ def parseFpChild (t : String) : Option FpChild :=
   | "ohc" => match slashes v with
     | [d, te, ip, p] => do pure (.ohc (← parseHexNat d) (← parseHexNat te) (← parseHexBytes ip) (← p.toNat?))
     | _ => none
+  | "ohctag" => (parseDash v).map .ohctag
   | "fpol" => (parseDash v).map .fpol
   | "smreq" => v.toNat?.map .smreq
   | _ => none
